@@ -470,7 +470,7 @@ def replay_file(engines, path):
 # --------------------------------------------------------------------------- known findings
 
 def load_known(path=None):
-    path = path or os.path.join(VERIF_DIR, "known_findings.json")
+    path = path or os.environ.get("VERIF_KNOWN_FINDINGS") or os.path.join(VERIF_DIR, "known_findings.json")
     try:
         with open(path) as f:
             return json.load(f)["findings"]
